@@ -44,7 +44,10 @@ def approxEq (x y : Val) : Bool :=
   | .r _ _, .r _ _ =>
     let a := x.toFloat; let b := y.toFloat
     let d := Float.abs (a - b)
-    d ≤ 2e-5 || d ≤ 1e-5 * (Float.abs a + Float.abs b)
+    -- magnitudes below the terminal precision only occur as EV* values (the generators keep multi-terminal
+    -- reals on a coarse grid); there the library's comparison is purely relative, and so is this one
+    if Float.abs a < 1e-5 && Float.abs b < 1e-5 then d ≤ 1e-5 * (Float.abs a + Float.abs b)
+    else d ≤ 2e-5 || d ≤ 1e-5 * (Float.abs a + Float.abs b)
   | _, _ => x == y
 
 def isTrue : Val → Bool
